@@ -36,6 +36,24 @@ fn unlock() {
     LOCK.store(false, Ordering::Release);
 }
 
+static WATCH: AtomicBool = AtomicBool::new(false);
+static MAX_SINGLE: AtomicUsize = AtomicUsize::new(0);
+
+/// Start recording the largest single allocation request (E5 `alloc_blowup` clause).
+pub fn watch_allocations(on: bool) {
+    MAX_SINGLE.store(0, Ordering::Relaxed);
+    WATCH.store(on, Ordering::SeqCst);
+}
+pub fn max_single_allocation() -> usize {
+    MAX_SINGLE.load(Ordering::Relaxed)
+}
+#[inline]
+fn note(size: usize) {
+    if WATCH.load(Ordering::Relaxed) {
+        MAX_SINGLE.fetch_max(size, Ordering::Relaxed);
+    }
+}
+
 pub fn set_quarantine(on: bool) {
     ON.store(on, Ordering::SeqCst);
 }
@@ -77,12 +95,15 @@ pub fn release_quarantine() {
 
 unsafe impl GlobalAlloc for TrackingAlloc {
     unsafe fn alloc(&self, layout: Layout) -> *mut u8 {
+        note(layout.size());
         unsafe { System.alloc(layout) }
     }
     unsafe fn alloc_zeroed(&self, layout: Layout) -> *mut u8 {
+        note(layout.size());
         unsafe { System.alloc_zeroed(layout) }
     }
     unsafe fn realloc(&self, ptr: *mut u8, layout: Layout, new_size: usize) -> *mut u8 {
+        note(new_size);
         if ON.load(Ordering::Relaxed) && layout.size() <= MAX_TRACKED_SIZE {
             // realloc = alloc + copy + (quarantined) free, so that the old block stays dead
             let new_layout = unsafe { Layout::from_size_align_unchecked(new_size, layout.align()) };
